@@ -226,6 +226,13 @@ def _show(v):
     return repr(v)
 
 
+def _classify_inject(case, detail):
+    name, n, b, pos, how = case
+    if _strip(name) in ('VLOOKUP', 'HLOOKUP') and n == 4 and pos == 3 and how == 'scalar':
+        return 'KF-C11-2'           # an error given as range_lookup is ignored
+    return None
+
+
 def _classify(case, detail):
     name = _strip(case[0])
     if name == 'NPV' and 'foreign value' in detail and ('nan' in detail or 'inf' in detail):
@@ -240,7 +247,83 @@ def _classify(case, detail):
     return None
 
 
+# ---- single error injection: an error in ONE argument of an otherwise successful call must surface -----------------------------
+_BENIGN = [(1,), (2,), (0.5,), (3, 2), (1, 2, 3)]
+
+
+def _inject_cases(tier, rng):
+    import formulas
+    out = []
+    for name in sorted(formulas.get_functions()):
+        base = _strip(name)
+        if base in ERROR_TOLERANT or base in CRITERIA or base in ('ARRAY', 'ARRAYROW'):
+            continue
+        lo, hi = arity_range(name)
+        for n in range(max(lo, 1), min(5, hi if hi is not None else 5) + 1):
+            for b in range(len(_BENIGN)):
+                for pos in range(n):
+                    for how in ('scalar', 'array'):
+                        out.append((name, n, b, pos, how))
+    return out
+
+
+def _inject_args(n, b, pos=None, how=None):
+    import numpy as np
+    from formulas.tokens.operand import Error
+    from formulas.functions import Array
+    vals = _BENIGN[b]
+    args = [vals[i % len(vals)] for i in range(n)]
+    if pos is not None:
+        na = Error.errors['#N/A']
+        args[pos] = na if how == 'scalar' else np.asarray([[args[pos], na]], object).view(Array)
+    return args
+
+
+def _check_inject(case):
+    name, n, b, pos, how = case
+    import signal
+
+    class _Timeout(BaseException):
+        pass
+
+    def _alarm(*a):
+        raise _Timeout()
+    old = signal.signal(signal.SIGALRM, _alarm)
+    signal.setitimer(signal.ITIMER_REAL, 5.0)
+    try:
+        try:
+            ref = _call(name, _inject_args(n, b))
+        except Exception:
+            return None                 # the call without the error does not succeed: nothing to compare (B1 reports raises)
+        if ref is sh.NONE or _has_error(ref):
+            return None                 # already an error without the injected one: the case shows nothing
+        args = _inject_args(n, b, pos, how)
+        try:
+            res = _call(name, args)
+        except Exception as ex:
+            return '%s(%s) raised %s' % (name, ', '.join(map(_show, args)), type(ex).__name__)
+    except _Timeout:
+        return '%s: did not return within 5 s' % name
+    finally:
+        signal.setitimer(signal.ITIMER_REAL, 0)
+        signal.signal(signal.SIGALRM, old)
+    if _strip(name) in SELECTING and how == 'array':
+        return None                     # selecting functions may not consume the array element that holds the error
+    if not _has_error(res):
+        return '%s(%s) lost the error in argument %d: result %s (without the error: %s)' % (
+            name, ', '.join(map(_show, args)), pos + 1, _show(res), _show(ref))
+    return None
+
+
+def _inject_nontrivial(case):
+    return True
+
+
 BOUNDED = [
+    Stage('B2:an-error-in-one-argument-of-a-successful-call-surfaces', 'C11', _inject_cases, _check_inject,
+          'every function (except the documented error-handling / inspection / criteria functions) x admissible arities 1..5 x 5 benign numeric '
+          'argument patterns x every argument position x {error scalar, array holding an error}: when the call without the error succeeds, '
+          'the call with it yields an error', classify=lambda case, detail: _classify_inject(case, detail), max_report=60),
     Stage('B1:totality-and-error-preservation', 'C11', _cases, _check,
           'all 247 names x arities 0..5 x pool of 14 scalars (incl. blank, 3 errors), 4 array literals, 4 ranges: every '
           '1-argument call, 25 (quick) / 2000 (thorough) random tuples per higher arity', classify=_classify, max_report=400),
